@@ -846,7 +846,11 @@ func (e *env) scanCase(lines *[]string, label string, ts uint64, lo, hi []byte, 
 		}
 		return "0"
 	}
-	*lines = append(*lines, fmt.Sprintf("SCAN\t%d\t%s\t%s\t%s\t%s\t%d\t%s\t%s\t%d\t=>\t%s\t%s", e.h.hid, label, u64s(ts), hx(lo), hx(hi), batch, b(ko), b(rev), nreg, res, e.traceString()))
+	tr := e.traceString()
+	if batch > 1<<31 { // the model replay cannot run with unary batch sizes of this magnitude: oracle only
+		tr = "!"
+	}
+	*lines = append(*lines, fmt.Sprintf("SCAN\t%d\t%s\t%s\t%s\t%s\t%d\t%s\t%s\t%d\t=>\t%s\t%s", e.h.hid, label, u64s(ts), hx(lo), hx(hi), batch, b(ko), b(rev), nreg, res, tr))
 }
 
 func (e *env) reads(tier string) []string {
@@ -1109,13 +1113,16 @@ func (e *env) reads(tier string) []string {
 // directed regression (the former F08/F08b witness): keys a..h, regions split at "c" and "f",
 // IterReverse from the end of the key space with and without a lower bound
 const regressionHID = 99999
+const regressionHID1 = 99998 // the same data in a single region
 
-func regressionHistory() *history {
-	h := &history{hid: regressionHID, rnd: rand.New(rand.NewSource(1))}
+func regressionHistory(hid int) *history {
+	h := &history{hid: hid, rnd: rand.New(rand.NewSource(1))}
 	for c := byte('a'); c <= 'h'; c++ {
 		h.keys = append(h.keys, []byte{c})
 	}
-	h.layout = [][]byte{[]byte("c"), []byte("f")}
+	if hid == regressionHID {
+		h.layout = [][]byte{[]byte("c"), []byte("f")}
+	}
 	for i := 0; i < 4; i++ {
 		t := txnSpec{kind: kCommitted, start: tsAt(i+1, 0), commit: tsAt(i+1, 5), ttl: 100}
 		for j := 0; j < 2; j++ {
@@ -1131,6 +1138,12 @@ func regressionHistory() *history {
 
 func (e *env) regressionReads() []string {
 	var lines []string
+	// F38 (fixed by 8f02ec4): batch sizes at and above the uint32 limit of the scan request
+	for _, b := range []int{1 << 32, 1<<32 + 2, 1<<32 - 1} {
+		e.scanCase(&lines, "regression-f38", e.h.ts1, nil, nil, b, false, false, false)
+		e.scanCase(&lines, "regression-f38", e.h.ts1, nil, nil, b, false, true, false)
+		e.scanCase(&lines, "regression-f38", e.h.ts1, []byte("b"), []byte("g"), b, false, false, false)
+	}
 	for _, b := range []int{256, 2, 3} {
 		e.scanCase(&lines, "regression-f08", e.h.ts1, nil, nil, b, false, true, false)
 		for _, lo := range []string{"c", "b", "f", "g\x00"} {
@@ -1145,8 +1158,8 @@ func runHistory(seed int64, hid int, tier string) {
 		return
 	}
 	h := genHistory(seed, hid, tier)
-	if hid == regressionHID {
-		h = regressionHistory()
+	if hid == regressionHID || hid == regressionHID1 {
+		h = regressionHistory(hid)
 	}
 	// a third of the histories use the asynchronous batch-get API, a quarter ask for commit timestamps
 	asyncBG := hid%3 == 0
@@ -1157,7 +1170,7 @@ func runHistory(seed int64, hid int, tier string) {
 	defer e.store.Close()
 	e.build()
 	var lines []string
-	if hid == regressionHID {
+	if hid == regressionHID || hid == regressionHID1 {
 		lines = e.regressionReads()
 	} else {
 		lines = e.reads(tier)
@@ -1307,6 +1320,7 @@ func main() {
 	}
 	runClassify(seed, 300)
 	runHistory(seed, regressionHID, tier)
+	runHistory(seed, regressionHID1, tier)
 	for hid := 1; hid <= n; hid++ {
 		runHistory(seed, hid, tier)
 	}
